@@ -19,7 +19,9 @@ import (
 	"verif/harness/hx"
 
 	simapp "github.com/KiraCore/sekai/app"
+	"github.com/KiraCore/sekai/x/distributor"
 	distrtypes "github.com/KiraCore/sekai/x/distributor/types"
+	"github.com/KiraCore/sekai/x/multistaking"
 	mskeeper "github.com/KiraCore/sekai/x/multistaking/keeper"
 	recoverykeeper "github.com/KiraCore/sekai/x/recovery/keeper"
 	recoverytypes "github.com/KiraCore/sekai/x/recovery/types"
@@ -521,6 +523,8 @@ func (o *op) coq() string {
 		return fmt.Sprintf("(ORotateVal %d)", o.Payer)
 	case "rotate_val_rr":
 		return "(OExternal 1)"
+	case "genesis":
+		return "OGenesis"
 	case "set_votes":
 		var vs []string
 		for _, v := range o.Votes {
@@ -636,6 +640,39 @@ func (w *world) exec(ctx sdk.Context, h *history, o *op) (sdk.Context, bool) {
 				RrHolder: acctAddr(5).String(), Address: acctAddr(100).String(), Recovery: fresh.String()})
 			if err == nil {
 				h.pendingVal = fresh
+			}
+		case "genesis":
+			// real ExportGenesis of the two modules (through the AppModule entry points and the JSON codec), their stores
+			// emptied, real InitGenesis; the history then continues on the imported state
+			mods := []struct {
+				name string
+				exp  func() []byte
+				imp  func(bz []byte)
+			}{
+				{mstypes.ModuleName,
+					func() []byte {
+						return multistaking.NewAppModule(app.MultiStakingKeeper, app.BankKeeper, app.CustomGovKeeper, app.CustomStakingKeeper).ExportGenesis(c, app.AppCodec())
+					},
+					func(bz []byte) {
+						multistaking.NewAppModule(app.MultiStakingKeeper, app.BankKeeper, app.CustomGovKeeper, app.CustomStakingKeeper).InitGenesis(c, app.AppCodec(), bz)
+					}},
+				{distrtypes.ModuleName,
+					func() []byte { return distributor.NewAppModule(app.DistrKeeper, app.CustomGovKeeper).ExportGenesis(c, app.AppCodec()) },
+					func(bz []byte) { distributor.NewAppModule(app.DistrKeeper, app.CustomGovKeeper).InitGenesis(c, app.AppCodec(), bz) }},
+			}
+			for _, m := range mods {
+				bz := m.exp()
+				store := c.KVStore(app.GetKey(m.name))
+				var keys [][]byte
+				it := store.Iterator(nil, nil)
+				for ; it.Valid(); it.Next() {
+					keys = append(keys, append([]byte{}, it.Key()...))
+				}
+				it.Close()
+				for _, k := range keys {
+					store.Delete(k)
+				}
+				m.imp(bz)
 			}
 		case "fees":
 			cs := toSdk(o.Amts, "")
@@ -971,6 +1008,9 @@ func (g *gen) randomOp1(o obs) []*op {
 			return ops
 		}
 	}
+	if r.Chance(3) || (len(o.Undels) > 0 && r.Chance(6)) {
+		return []*op{{Kind: "genesis"}}
+	}
 	switch {
 	case k < 25:
 		who := g.delegator()
@@ -1154,6 +1194,23 @@ func scripted(cfgIdx int) []*history {
 		&op{Kind: "delegate", Who: 0, Amts: []coin{c(0, 1000)}}, &op{Kind: "fees", Amts: []coin{c(0, 4000)}},
 		&op{Kind: "begin", Dt: 5, Commit: []int64{0, 1}, Signed: []bool{true, true}, Proposer: 0}, &op{Kind: "end"},
 		&op{Kind: "rotate_val_rr"})
+	// genesis export / re-import with a GAP in the pending undelegation ids (1 claimed, 2 pending, 3 not mature), two
+	// denominations, compound info, rewards: the history continues on the imported state
+	ops8 := []*op{{Kind: "delegate", Who: 0, Amts: []coin{c(0, 1000), c(1, 400)}}, {Kind: "delegate", Who: 1, Amts: []coin{c(0, 800)}},
+		{Kind: "set_compound", Who: 1, All: false, Dens: []int{0}},
+		{Kind: "undelegate", Who: 0, Amts: []coin{c(0, 100)}}, {Kind: "advance", Dt: 604800, Ns: 7},
+		{Kind: "undelegate", Who: 1, Amts: []coin{c(0, 200)}}}
+	ops8 = append(ops8, blk(0)...)
+	ops8 = append(ops8, blk(0)...)
+	ops8 = append(ops8, &op{Kind: "claim", Who: 0, ID: 1}, &op{Kind: "advance", Dt: 1000}, &op{Kind: "undelegate", Who: 0, Amts: []coin{c(1, 50)}},
+		&op{Kind: "genesis"},
+		&op{Kind: "undelegate", Who: 0, Amts: []coin{c(0, 30)}}, // must not reuse a pending id
+		&op{Kind: "register", Who: 0}, &op{Kind: "register", Who: 1})
+	ops8 = append(ops8, blk(0)...)
+	ops8 = append(ops8, &op{Kind: "advance", Dt: 604800}, &op{Kind: "claim", Who: 1, ID: 2}, &op{Kind: "claim", Who: 0, ID: 3},
+		&op{Kind: "claim_matured", Who: 0}, &op{Kind: "genesis"}, &op{Kind: "undelegate", Who: 1, Amts: []coin{c(0, 10)}},
+		&op{Kind: "claim_rewards", Who: 0})
+	add("witness:genesis_roundtrip_with_id_gap", 1, ops8...)
 	// repeated entries in Amounts
 	add("witness:repeated_amounts", 0,
 		&op{Kind: "delegate", Who: 0, Amts: []coin{c(0, 100), c(0, 100)}},
